@@ -89,6 +89,8 @@ type Scenario struct {
 	ScopeVer  string  `json:"scope_ver"`
 	Points   []PointJ `json:"points"`
 	Res      []AttrJ  `json:"res"`
+	ScopeAttrs []AttrJ `json:"scope_attrs,omitempty"`
+	MaxScale int32 `json:"max_scale,omitempty"` // exponential histograms: the view's MaxScale
 	Kind     string   `json:"kind"` // generator label
 }
 
@@ -104,6 +106,17 @@ type ValJ struct {
 	Counts  []uint64  `json:"counts,omitempty"`  // SDK: per bucket; exposition: cumulative
 	Count   uint64    `json:"count"`
 	Sum     float64   `json:"sum"`
+	// exponential histograms: SDK side offset + counts; exposition side decoded (index, count) pairs
+	Expo      bool     `json:"expo,omitempty"`
+	Scale     int32    `json:"scale,omitempty"`
+	ZeroCount uint64   `json:"zero_count,omitempty"`
+	PosOff    int32    `json:"pos_off,omitempty"`
+	PosCounts []uint64 `json:"pos_counts,omitempty"`
+	NegOff    int32    `json:"neg_off,omitempty"`
+	NegCounts []uint64 `json:"neg_counts,omitempty"`
+	PosIdx    []int64  `json:"pos_idx,omitempty"`
+	NegIdx    []int64  `json:"neg_idx,omitempty"`
+	BadNative string   `json:"bad_native,omitempty"`
 }
 
 type SeriesJ struct {
@@ -132,6 +145,9 @@ type Obs struct {
 	SDK       []SeriesJ `json:"sdk"`      // data points of the instrument as a ManualReader sees them
 	SDKErr    string    `json:"sdk_err,omitempty"`
 	ResAttrs  []KV      `json:"res_attrs"` // resource attributes in set order
+	ScopeAttrs []KV     `json:"scope_attrs"` // scope attributes + otel_scope_name / otel_scope_version in set order
+	ScopeInfoLabels []KV `json:"scope_info_labels"`
+	SecondFamilies int  `json:"second_scrape_families"`
 	Unstable  bool      `json:"unstable"`  // two consecutive scrapes differed
 }
 
@@ -182,9 +198,24 @@ func runScenario(sc Scenario) (ob Obs) {
 		rkvs = append(rkvs, a.kv())
 	}
 	res := resource.NewSchemaless(rkvs...)
-	mp := sdk.NewMeterProvider(sdk.WithReader(exp), sdk.WithReader(rd), sdk.WithResource(res))
+	mpOpts := []sdk.Option{sdk.WithReader(exp), sdk.WithReader(rd), sdk.WithResource(res)}
+	if strings.HasSuffix(sc.Inst, "expohist") {
+		mpOpts = append(mpOpts, sdk.WithView(sdk.NewView(sdk.Instrument{Name: "*"},
+			sdk.Stream{Aggregation: sdk.AggregationBase2ExponentialHistogram{MaxSize: 160, MaxScale: sc.MaxScale}})))
+	}
+	mp := sdk.NewMeterProvider(mpOpts...)
 	defer mp.Shutdown(ctx)
-	m := mp.Meter(sc.ScopeName, metric.WithInstrumentationVersion(sc.ScopeVer))
+	var skvs []attribute.KeyValue
+	for _, a := range sc.ScopeAttrs {
+		skvs = append(skvs, a.kv())
+	}
+	mOpts := []metric.MeterOption{metric.WithInstrumentationVersion(sc.ScopeVer)}
+	if len(skvs) > 0 {
+		mOpts = append(mOpts, metric.WithInstrumentationAttributes(skvs...))
+	}
+	m := mp.Meter(sc.ScopeName, mOpts...)
+	ob.ScopeAttrs = attrKVs(attribute.NewSet(append(append([]attribute.KeyValue{}, skvs...),
+		attribute.String("otel_scope_name", sc.ScopeName), attribute.String("otel_scope_version", sc.ScopeVer))...))
 
 	sets := make([]attribute.Set, len(sc.Points))
 	for i, p := range sc.Points {
@@ -244,7 +275,7 @@ func runScenario(sc Scenario) (ob Obs) {
 				c.Record(ctx, v, metric.WithAttributeSet(sets[i]))
 			}
 		}
-	case "i64hist":
+	case "i64hist", "i64expohist":
 		o := []metric.Int64HistogramOption{metric.WithUnit(sc.Unit), metric.WithDescription(sc.Desc)}
 		if sc.HasBounds {
 			o = append(o, metric.WithExplicitBucketBoundaries(sc.Bounds...))
@@ -256,7 +287,7 @@ func runScenario(sc Scenario) (ob Obs) {
 				c.Record(ctx, int64(v), metric.WithAttributeSet(sets[i]))
 			}
 		}
-	case "f64hist":
+	case "f64hist", "f64expohist":
 		o := []metric.Float64HistogramOption{metric.WithUnit(sc.Unit), metric.WithDescription(sc.Desc)}
 		if sc.HasBounds {
 			o = append(o, metric.WithExplicitBucketBoundaries(sc.Bounds...))
@@ -329,12 +360,18 @@ func runScenario(sc Scenario) (ob Obs) {
 			}
 		case "otel_scope_info":
 			ob.ScopeInfo = true
+			if len(mf.GetMetric()) == 1 {
+				for _, lp := range mf.GetMetric()[0].GetLabel() {
+					ob.ScopeInfoLabels = append(ob.ScopeInfoLabels, KV{lp.GetName(), lp.GetValue()})
+				}
+			}
 		default:
 			ob.Families = append(ob.Families, familyJ(mf))
 		}
 	}
 	// a second scrape with nothing recorded in between must expose the same families
 	mfs2, gerr2 := reg.Gather()
+	ob.SecondFamilies = len(mfs2)
 	if (gerr == nil) != (gerr2 == nil) || len(mfs) != len(mfs2) {
 		ob.Unstable = true
 	} else {
@@ -405,6 +442,18 @@ func sdkSeries(d metricdata.Aggregation) []SeriesJ {
 		for _, dp := range v.DataPoints {
 			out = append(out, SeriesJ{Labels: attrKVs(dp.Attributes), Val: ValJ{Num: dp.Value}})
 		}
+	case metricdata.ExponentialHistogram[int64]:
+		for _, dp := range v.DataPoints {
+			out = append(out, SeriesJ{Labels: attrKVs(dp.Attributes), Val: ValJ{Expo: true, Scale: dp.Scale, ZeroCount: dp.ZeroCount,
+				PosOff: dp.PositiveBucket.Offset, PosCounts: dp.PositiveBucket.Counts, NegOff: dp.NegativeBucket.Offset, NegCounts: dp.NegativeBucket.Counts,
+				Count: dp.Count, Sum: float64(dp.Sum)}})
+		}
+	case metricdata.ExponentialHistogram[float64]:
+		for _, dp := range v.DataPoints {
+			out = append(out, SeriesJ{Labels: attrKVs(dp.Attributes), Val: ValJ{Expo: true, Scale: dp.Scale, ZeroCount: dp.ZeroCount,
+				PosOff: dp.PositiveBucket.Offset, PosCounts: dp.PositiveBucket.Counts, NegOff: dp.NegativeBucket.Offset, NegCounts: dp.NegativeBucket.Counts,
+				Count: dp.Count, Sum: dp.Sum}})
+		}
 	case metricdata.Histogram[int64]:
 		for _, dp := range v.DataPoints {
 			out = append(out, SeriesJ{Labels: attrKVs(dp.Attributes), Val: ValJ{Hist: true, Bounds: dp.Bounds, Counts: dp.BucketCounts, Count: dp.Count, Sum: float64(dp.Sum)}})
@@ -451,9 +500,30 @@ func familyJ(mf *dto.MetricFamily) FamilyJ {
 			s.Val.Num = m.GetGauge().GetValue()
 		case m.Histogram != nil:
 			h := m.GetHistogram()
-			s.Val.Hist = true
 			s.Val.Count = h.GetSampleCount()
 			s.Val.Sum = h.GetSampleSum()
+			if h.Schema != nil { // native (exponential) histogram: decode spans + deltas into (index, count)
+				s.Val.Expo = true
+				s.Val.Scale = h.GetSchema()
+				s.Val.ZeroCount = h.GetZeroCount()
+				if h.GetZeroThreshold() != 0 {
+					s.Val.BadNative = "zero threshold is not 0"
+				}
+				if len(h.GetBucket()) != 0 || len(h.GetPositiveCount()) != 0 || len(h.GetNegativeCount()) != 0 {
+					s.Val.BadNative = "classic buckets or float counts on a native histogram"
+				}
+				var bad bool
+				s.Val.PosIdx, s.Val.PosCounts, bad = decodeSpans(h.GetPositiveSpan(), h.GetPositiveDelta())
+				if bad {
+					s.Val.BadNative = "positive spans and deltas are inconsistent"
+				}
+				s.Val.NegIdx, s.Val.NegCounts, bad = decodeSpans(h.GetNegativeSpan(), h.GetNegativeDelta())
+				if bad {
+					s.Val.BadNative = "negative spans and deltas are inconsistent"
+				}
+				break
+			}
+			s.Val.Hist = true
 			for _, b := range h.GetBucket() {
 				s.Val.Bounds = append(s.Val.Bounds, b.GetUpperBound())
 				s.Val.Counts = append(s.Val.Counts, b.GetCumulativeCount())
@@ -464,6 +534,33 @@ func familyJ(mf *dto.MetricFamily) FamilyJ {
 		f.Series = append(f.Series, s)
 	}
 	return f
+}
+
+// decodeSpans turns the span / delta encoding of a native histogram into bucket indices and absolute counts.
+func decodeSpans(spans []*dto.BucketSpan, deltas []int64) (idx []int64, counts []uint64, bad bool) {
+	var cur, cnt int64
+	k := 0
+	for i, sp := range spans {
+		if i == 0 {
+			cur = int64(sp.GetOffset())
+		} else {
+			cur += int64(sp.GetOffset())
+		}
+		for j := uint32(0); j < sp.GetLength(); j++ {
+			if k >= len(deltas) {
+				return idx, counts, true
+			}
+			cnt += deltas[k]
+			k++
+			if cnt < 0 {
+				return idx, counts, true
+			}
+			idx = append(idx, cur)
+			counts = append(counts, uint64(cnt))
+			cur++
+		}
+	}
+	return idx, counts, k != len(deltas)
 }
 
 func childMain(scheme, in, out string) {
@@ -517,7 +614,7 @@ var unitWords = []string{"days", "hours", "minutes", "seconds", "milliseconds", 
 var unknownUnits = []string{"", "{request}", "S", "seconds", "by", "ms/s", "1/s", "kg", "mS", " s", "total", "B"}
 var plainWords = []string{"foo", "http", "x", "request", "duration", "sub", "Total", "TOTAL", "totals", "tot", "otal", "a", "Z9", "latency", "size", "q"}
 var seps = []string{"_", ".", "-", "/", "", "__", "._", "-.", "_.", "//"}
-var insts = []string{"i64counter", "f64counter", "i64updown", "f64updown", "i64gauge", "f64gauge", "i64hist", "f64hist",
+var insts = []string{"i64expohist", "f64expohist", "i64counter", "f64counter", "i64updown", "f64updown", "i64gauge", "f64gauge", "i64hist", "f64hist",
 	"i64obscounter", "f64obscounter", "i64obsupdown", "f64obsupdown", "i64obsgauge", "f64obsgauge"}
 
 const restChars = "abcdefghijklmnopqrstuvwxyzABCDEFGHIJKLMNOPQRSTUVWXYZ0123456789_.-/"
@@ -664,7 +761,7 @@ func genValues(r *vgen.Rand, inst string) []float64 {
 	n := r.Intn(5) + 1
 	vs := make([]float64, n)
 	isInt := strings.HasPrefix(inst, "i64")
-	mono := strings.Contains(inst, "counter") || strings.Contains(inst, "hist")
+	mono := strings.Contains(inst, "counter") || (strings.Contains(inst, "hist") && !strings.Contains(inst, "expo"))
 	for i := range vs {
 		var v float64
 		if isInt {
@@ -702,11 +799,13 @@ func genScenario(r *vgen.Rand, id int, utf8 bool) Scenario {
 	if r.Chance(1, 3) {
 		sc.Inst = vgen.Pick(r, []string{"i64counter", "f64counter", "i64obscounter", "f64obscounter"})
 	}
+	// exponential histograms: mostly a MaxScale Prometheus can represent (<= 8), sometimes the SDK default 20 (known finding F-C18-3)
+	sc.MaxScale = vgen.Pick(r, []int32{8, 8, 5, 3, 0, -2, 20})
 	sc.Name = genName(r, sc.Unit)
 	sc.Desc = vgen.Pick(r, []string{"", "a description", "help \"quoted\" \\ and\nnewline"})
 	sc.ScopeName = vgen.Pick(r, []string{"scope", "", "github.com/x/y", "sc ope"})
 	sc.ScopeVer = vgen.Pick(r, []string{"", "v1.2.3", "0"})
-	if strings.HasSuffix(sc.Inst, "hist") && r.Chance(2, 3) {
+	if strings.HasSuffix(sc.Inst, "hist") && !strings.HasSuffix(sc.Inst, "expohist") && r.Chance(2, 3) {
 		sc.HasBounds = true
 		n := r.Intn(6)
 		set := map[float64]bool{}
@@ -741,8 +840,15 @@ func genScenario(r *vgen.Rand, id int, utf8 bool) Scenario {
 		p.Values = genValues(r, sc.Inst)
 		sc.Points = append(sc.Points, p)
 	}
-	// resource: sometimes the default-looking one, sometimes colliding keys
-	switch r.Intn(3) {
+	// scope attributes: colliding keys; rarely a key that cannot become a label (known class F-C18-2: the whole scope is skipped)
+	if r.Chance(1, 4) {
+		sc.ScopeAttrs = genAttrs(r, r.Intn(4)+1, r.Chance(1, 6))
+	}
+	// resource: sometimes the default-looking one, sometimes colliding keys, rarely keys that cannot become labels
+	// (reserved "__" prefix, ':', only non-ASCII runes: target_info cannot be built)
+	switch r.Intn(4) {
+	case 3:
+		sc.Res = genAttrs(r, r.Intn(4)+1, r.Chance(1, 2))
 	case 0:
 		sc.Res = []AttrJ{{K: "service.name", T: "s", S: "svc"}, {K: "telemetry.sdk.language", T: "s", S: "go"}}
 	case 1:
@@ -756,7 +862,7 @@ func genScenario(r *vgen.Rand, id int, utf8 bool) Scenario {
 func fixedCorpus(utf8 bool) []Scenario {
 	var out []Scenario
 	mk := func(name, unit, inst string, edit func(*Scenario)) {
-		sc := Scenario{UTF8: utf8, Name: name, Unit: unit, Inst: inst, ScopeName: "corpus", ScopeVer: "v0", Kind: "corpus",
+		sc := Scenario{UTF8: utf8, Name: name, Unit: unit, Inst: inst, ScopeName: "corpus", ScopeVer: "v0", Kind: "corpus", MaxScale: 8,
 			Points: []PointJ{{Values: []float64{1, 2}}}, Res: []AttrJ{{K: "service.name", T: "s", S: "svc"}}}
 		if edit != nil {
 			edit(&sc)
@@ -801,6 +907,35 @@ func fixedCorpus(utf8 bool) []Scenario {
 	mk("reserved", "s", "i64counter", func(s *Scenario) {
 		s.Points = []PointJ{{Attrs: []AttrJ{{K: "__b", T: "s", S: "x"}}, Values: []float64{5}}}
 	})
+	// resources / scopes whose attributes cannot become labels: target_info cannot be built / the scope is skipped;
+	// both scrapes must survive and still return the other families
+	for _, k := range []string{"__replica", "a:b", "_.b", "日本"} {
+		k := k
+		mk("res.bad", "s", "i64counter", func(s *Scenario) { s.Res = []AttrJ{{K: k, T: "s", S: "r"}, {K: "service.name", T: "s", S: "svc"}} })
+		mk("res.bad.noscope", "s", "f64gauge", func(s *Scenario) { s.Res = []AttrJ{{K: k, T: "s", S: "r"}}; s.NoScope = true })
+		mk("scope.bad", "s", "i64counter", func(s *Scenario) { s.ScopeAttrs = []AttrJ{{K: k, T: "s", S: "r"}} })
+		mk("scope.bad.notarget", "By", "i64hist", func(s *Scenario) { s.ScopeAttrs = []AttrJ{{K: k, T: "s", S: "r"}}; s.NoTarget = true })
+		mk("scope.bad.noscopeinfo", "By", "i64updown", func(s *Scenario) { s.ScopeAttrs = []AttrJ{{K: k, T: "s", S: "r"}}; s.NoScope = true })
+		mk("both.bad", "1", "f64counter", func(s *Scenario) {
+			s.Res = []AttrJ{{K: k, T: "s", S: "r"}}
+			s.ScopeAttrs = []AttrJ{{K: k, T: "s", S: "r"}}
+		})
+	}
+	mk("scope.collide", "s", "i64counter", func(s *Scenario) {
+		s.ScopeAttrs = []AttrJ{{K: "a.b", T: "s", S: "x"}, {K: "a_b", T: "s", S: "w"}, {K: " ", T: "s", S: "sp"}, {K: ".", T: "s", S: "dot"}}
+	})
+	// exponential histograms (through a view) with negative and positive measurements whose bucket offsets differ
+	for _, inst := range []string{"i64expohist", "f64expohist"} {
+		// F-C18-3 (known): the SDK's default MaxScale 20 is beyond the native-histogram schemas (-4..8)
+		mk("expo.default.scale", "s", inst, func(s *Scenario) { s.MaxScale = 20; s.Points = []PointJ{{Values: []float64{-1, 100}}, {Attrs: []AttrJ{{K: "zid", T: "i", I: 1}}, Values: []float64{7}}} })
+		mk("expo", "s", inst, func(s *Scenario) { s.Points = []PointJ{{Values: []float64{-1, -2, -2, 0, 0, 100, 200, 1000}}} })
+		mk("expo.neg.only", "ms", inst, func(s *Scenario) { s.Points = []PointJ{{Values: []float64{-5, -6, -700}}} })
+		mk("expo.pos.only", "By", inst, func(s *Scenario) { s.Points = []PointJ{{Values: []float64{3, 4, 4, 512}}} })
+		mk("expo.zero.only", "1", inst, func(s *Scenario) { s.Points = []PointJ{{Values: []float64{0, 0}}} })
+		mk("expo.two.points", "s", inst, func(s *Scenario) {
+			s.Points = []PointJ{{Values: []float64{-1000, 1}}, {Attrs: []AttrJ{{K: "zid", T: "i", I: 1}}, Values: []float64{-1, 1000, 2}}}
+		})
+	}
 	// histogram with the default boundaries and values on the boundaries
 	mk("lat", "ms", "f64hist", func(s *Scenario) {
 		s.Points = []PointJ{{Values: []float64{0, 5, 5.125, 10, 10000, 10000.125, 75}}}
@@ -1049,7 +1184,34 @@ func emit(w *vgen.Writer, sc Scenario, ob Obs) {
 	}
 	asRunes := !sc.UTF8
 	exact := true
+	badNative := ""
 	valCoq := func(v ValJ, sdk bool) string {
+		if v.Expo {
+			sum, ok := scaled(v.Sum)
+			exact = exact && ok
+			cs := func(l []uint64) string {
+				var items []string
+				for _, c := range l {
+					items = append(items, vgen.N(c))
+				}
+				return vgen.List(items)
+			}
+			if sdk {
+				return vgen.App("VExpo", vgen.Z(int64(v.Scale)), vgen.N(v.ZeroCount), vgen.Z(int64(v.PosOff)), cs(v.PosCounts),
+					vgen.Z(int64(v.NegOff)), cs(v.NegCounts), vgen.N(v.Count), sum)
+			}
+			if v.BadNative != "" {
+				badNative = v.BadNative
+			}
+			pairs := func(idx []int64, l []uint64) string {
+				var items []string
+				for i := range idx {
+					items = append(items, vgen.Pair(vgen.Z(idx[i]), vgen.N(l[i])))
+				}
+				return vgen.List(items)
+			}
+			return vgen.App("OExpo", vgen.Z(int64(v.Scale)), vgen.N(v.ZeroCount), pairs(v.PosIdx, v.PosCounts), pairs(v.NegIdx, v.NegCounts), vgen.N(v.Count), sum)
+		}
 		if !v.Hist {
 			z, ok := scaled(v.Num)
 			exact = exact && ok
@@ -1095,6 +1257,10 @@ func emit(w *vgen.Writer, sc Scenario, ob Obs) {
 		}
 		fam = vgen.Some("(" + vgen.HxS(f.Name) + ", " + vgen.N(uint64(f.Type)) + ", " + vgen.List(ss) + ")")
 	}
+	if badNative != "" {
+		w.Violation("malformed native histogram exposed: "+badNative, desc)
+		return
+	}
 	if !exact {
 		w.Violation("a value that is not an exact multiple of 1/8 reached the comparison (harness precondition broken)", desc)
 		return
@@ -1107,7 +1273,8 @@ func emit(w *vgen.Writer, sc Scenario, ob Obs) {
 		return
 	}
 	term := vgen.App("CScrape", vgen.Bool(sc.UTF8), vgen.Bool(sc.NoUnits), vgen.Bool(sc.NoTotal), ns, vgen.Bool(sc.NoScope), vgen.Bool(sc.NoTarget),
-		vgen.HxS(sc.Name), vgen.HxS(sc.Unit), vgen.N(uint64(instKind(sc.Inst))), vgen.HxS(sc.ScopeName), vgen.HxS(sc.ScopeVer), vgen.List(pts),
+		vgen.HxS(sc.Name), vgen.HxS(sc.Unit), vgen.N(uint64(instKind(sc.Inst))), vgen.HxS(sc.ScopeName), vgen.HxS(sc.ScopeVer),
+		attrsCoq(ob.ResAttrs, asRunes), attrsCoq(ob.ScopeAttrs, asRunes), vgen.List(pts),
 		vgen.Bool(ob.GatherErr != ""), vgen.N(uint64(len(ob.Handled))), vgen.Bool(ob.Target), vgen.Bool(ob.ScopeInfo), fam)
 	scheme := "legacy"
 	if sc.UTF8 {
@@ -1124,5 +1291,12 @@ func emit(w *vgen.Writer, sc Scenario, ob Obs) {
 	if ob.Target && len(ob.ResAttrs) > 0 {
 		t := vgen.App("CAttrs", vgen.Bool(sc.UTF8), attrsCoq(ob.ResAttrs, asRunes), attrsCoq(ob.TargetLabels, false))
 		w.Add(t, map[string]any{"resource": ob.ResAttrs, "target_info_labels": ob.TargetLabels, "utf8": sc.UTF8}, "target-info-labels-"+scheme, true)
+	}
+	if ob.ScopeInfo && len(sc.ScopeAttrs) > 0 {
+		t := vgen.App("CAttrs", vgen.Bool(sc.UTF8), attrsCoq(ob.ScopeAttrs, asRunes), attrsCoq(ob.ScopeInfoLabels, false))
+		w.Add(t, map[string]any{"scope_attributes": ob.ScopeAttrs, "otel_scope_info_labels": ob.ScopeInfoLabels, "utf8": sc.UTF8}, "scope-info-labels-"+scheme, true)
+	}
+	if len(sc.ScopeAttrs) > 0 {
+		w.Tally("scope-attrs")
 	}
 }
